@@ -22,6 +22,8 @@ def judge(case):
         return SPECIAL[op.split(":")[0]](case)
     arrays = cat.arrays_for(case)
     snap = [a.copy() for a in arrays]
+    # the same call on float32 operands first: whatever it leaves behind in the process must not change the float64 answer
+    warm = _outcome(lambda: np.asarray(cat.run_lib(case, [a.astype(np.float32) for a in arrays])[0].data))
     lib = _outcome(lambda: np.asarray(cat.run_lib(case, arrays)[0].data))
     # docstring override: matmul needs >= 2-D operands
     if op == "matmul" and min(len(s) for s in case["shapes"]) < 2:
@@ -49,6 +51,8 @@ def judge(case):
                 viol.append({"kind": f"{op}:layout-dependent", "detail": f"operands given in {lname} layout: library raised {r2[1]}"})
             elif tuple(r2[1].shape) != tuple(ref[1].shape) or not np.allclose(r2[1], ref[1], rtol=RT, atol=AT, equal_nan=True):
                 viol.append({"kind": f"{op}:layout-dependent", "detail": f"operands given in {lname} layout: result differs from the reference (shape {r2[1].shape})"})
+    if warm[0] == "ok" and lib[0] == "ok" and warm[1].dtype != np.float32 and lib[1].dtype == np.float64:
+        viol.append({"kind": f"{op}:float32-result-dtype", "detail": f"float32 operands gave a {warm[1].dtype} result"})
     return {"nontrivial": lib[0] == "ok" and lib[1].size >= 1 and any(int(np.prod(s, dtype=int)) > 1 for s in case["shapes"]),
             "outcome": tag, "violations": viol}
 
